@@ -8,7 +8,7 @@ for p in "$@"; do
     src=/tmp/$r-$p/out/$k
     [ -f $src/patch.diff ] || continue
     last=$((last+1)); dst=seeded/$p-$last
-    mkdir -p $dst; cp $src/patch.diff $dst/; cp $src/*.rs $dst/ 2>/dev/null; cp $src/meta.json $dst/meta.agent.json
+    mkdir -p $dst; cp $src/patch.diff $dst/; cp $src/*.rs $src/*.inc $dst/ 2>/dev/null; cp $src/meta.json $dst/meta.agent.json
     echo "$dst <- $src ($(ls $dst | tr '\n' ' '))"
   done
   git -C /repo worktree remove --force /tmp/$r-$p && git -C /repo worktree prune
